@@ -65,7 +65,14 @@ def impl_to_cidrs(lo, hi):
 def impl_iprange_to_globs(sv, s, ev, e):
     import netaddr
     from netaddr.ip.glob import iprange_to_globs
-    return list(iprange_to_globs(netaddr.IPAddress(s, sv), netaddr.IPAddress(e, ev)))
+    out = list(iprange_to_globs(netaddr.IPAddress(s, sv), netaddr.IPAddress(e, ev)))
+    if sv == 4 and ev == 4:
+        # the same bounds as dotted strings and as plain integers must give the same globs
+        alt = list(iprange_to_globs(str(netaddr.IPAddress(s, 4)), str(netaddr.IPAddress(e, 4))))
+        assert alt == out, "string bounds give %r, IPAddress bounds %r" % (alt, out)
+        alt2 = list(iprange_to_globs(s, e))
+        assert alt2 == out, "integer bounds give %r, IPAddress bounds %r" % (alt2, out)
+    return out
 
 
 def impl_glob_to_cidrs(s):
